@@ -14,7 +14,7 @@ STYLES = ["named", "rust", "bare"]
 def rt_event(si, cmd, obs):
     """harness observation of a ser_de command -> trace event"""
     ev = {"ev": "rt", "si": si, "pres": cmd["pres"], "slow": bool(cmd.get("slow_seq", False)), "res": obs.get("res"),
-          "hints": cmd.get("hints", "default")}
+          "hints": ("dec_" + cmd["decimal_mode"]) if cmd.get("decimal_mode") else cmd.get("hints", "default")}
     if obs.get("res") == "ok":
         ev["bytes"] = obs["bytes"]
         de = obs["de"]
@@ -128,6 +128,8 @@ def random_roundtrips(rng, n_events, rep, depth_extremes=False):
                 cmds[-1]["hints"] = h
                 if h == "alt":
                     cmds[-1]["shape"] = v
+                    if rng.random() < 0.4:      # integer targets for decimals (also inside Option<_> over unions of several branches)
+                        cmds[-1]["decimal_mode"] = rng.choice(["u64", "i64", "u128", "i128"])
             sis.append(si + 1)
     obs = common.run_harness(cmds)
     events = [rt_event(si, c, o) for si, c, o in zip(sis, cmds, obs)]
